@@ -294,4 +294,110 @@ theorem reach_inv (cfg : Cfg) (hf : cfg.cancelChecksOwner = true) (s : State) (h
   obtain ⟨ls, h⟩ := h
   exact run_inv cfg hf ls init s init_mutex (init_wf cfg) h
 
+/-! ### Invariant 3: what the channels and the receive loop hold -/
+
+def RPc.busy : RPc → Bool
+  | .got _ | .passed _ | .sending _ _ | .unlocking => true
+  | _ => false
+
+def RPc.pkt : RPc → Option Pkt
+  | .got p | .passed p | .sending p _ => some p
+  | _ => none
+
+def RPc.okPkt : RPc → Option Pkt
+  | .passed p | .sending p _ => some p
+  | _ => none
+
+section
+variable (q : Pkt) (r : Nat)
+@[simp, grind =] theorem busy_idle : RPc.busy .idle = false := rfl
+@[simp, grind =] theorem busy_got : RPc.busy (.got q) = true := rfl
+@[simp, grind =] theorem busy_passed : RPc.busy (.passed q) = true := rfl
+@[simp, grind =] theorem busy_sending : RPc.busy (.sending q r) = true := rfl
+@[simp, grind =] theorem busy_unlocking : RPc.busy .unlocking = true := rfl
+@[simp, grind =] theorem busy_exited : RPc.busy .exited = false := rfl
+@[simp, grind =] theorem pkt_idle : RPc.pkt .idle = none := rfl
+@[simp, grind =] theorem pkt_got : RPc.pkt (.got q) = some q := rfl
+@[simp, grind =] theorem pkt_passed : RPc.pkt (.passed q) = some q := rfl
+@[simp, grind =] theorem pkt_sending : RPc.pkt (.sending q r) = some q := rfl
+@[simp, grind =] theorem pkt_unlocking : RPc.pkt .unlocking = none := rfl
+@[simp, grind =] theorem pkt_exited : RPc.pkt .exited = none := rfl
+@[simp, grind =] theorem okPkt_idle : RPc.okPkt .idle = none := rfl
+@[simp, grind =] theorem okPkt_got : RPc.okPkt (.got q) = none := rfl
+@[simp, grind =] theorem okPkt_passed : RPc.okPkt (.passed q) = some q := rfl
+@[simp, grind =] theorem okPkt_sending : RPc.okPkt (.sending q r) = some q := rfl
+@[simp, grind =] theorem okPkt_unlocking : RPc.okPkt .unlocking = none := rfl
+@[simp, grind =] theorem okPkt_exited : RPc.okPkt .exited = none := rfl
+end
+
+/-- contents of channels and of the loop's hands -/
+structure CInv (cfg : Cfg) (s : State) : Prop where
+  hlen : s.hist.length = s.processed + (if s.rx.busy then 1 else 0)
+  rxpkt : ∀ p, s.rx.pkt = some p → p.seq = s.processed ∧ s.hist[p.seq]? = some p.d
+  rxok : ∀ p, s.rx.okPkt = some p → p.d.ok = true
+  routed : ∀ r p, p ∈ (getR s r).routed →
+    p.d.ok = true ∧ p.d.xid = (getR s r).xid ∧ s.hist[p.seq]? = some p.d ∧ (getR s r).bornAt ≤ p.seq
+  born : ∀ r, (getR s r).bornAt ≤ s.processed
+
+set_option maxHeartbeats 1000000 in
+theorem step_hlen (cfg : Cfg) (s s' : State) (l : Label) (hw : WF cfg s) (hc : CInv cfg s)
+    (h : step cfg s l = some s') : s'.hist.length = s'.processed + (if s'.rx.busy then 1 else 0) := by
+  obtain ⟨hlen, hrxpkt, hrxok, hrouted, hborn⟩ := hc
+  lts_cases l h
+  all_goals (simp_all [getC, getR])
+  all_goals (try split)
+  all_goals (first | (simp_all; done) | grind)
+
+set_option maxHeartbeats 1000000 in
+theorem step_rxpkt (cfg : Cfg) (s s' : State) (l : Label) (hw : WF cfg s) (hc : CInv cfg s)
+    (h : step cfg s l = some s') : ∀ p, s'.rx.pkt = some p → p.seq = s'.processed ∧ s'.hist[p.seq]? = some p.d := by
+  obtain ⟨hlen, hrxpkt, hrxok, hrouted, hborn⟩ := hc
+  lts_cases l h
+  all_goals (intro p hp)
+  all_goals (simp_all [getC, getR])
+  all_goals (try split)
+  all_goals (first | (simp_all; done) | grind)
+
+set_option maxHeartbeats 1000000 in
+theorem step_rxok (cfg : Cfg) (s s' : State) (l : Label) (hw : WF cfg s) (hc : CInv cfg s)
+    (h : step cfg s l = some s') : ∀ p, s'.rx.okPkt = some p → p.d.ok = true := by
+  obtain ⟨hlen, hrxpkt, hrxok, hrouted, hborn⟩ := hc
+  lts_cases l h
+  all_goals (intro p hp)
+  all_goals (simp_all [getC, getR])
+  all_goals (try split)
+  all_goals (first | (simp_all; done) | grind)
+
+set_option maxHeartbeats 1000000 in
+theorem step_routed (cfg : Cfg) (s s' : State) (l : Label) (hw : WF cfg s) (hc : CInv cfg s)
+    (h : step cfg s l = some s') : ∀ r p, p ∈ (getR s' r).routed →
+    p.d.ok = true ∧ p.d.xid = (getR s' r).xid ∧ s'.hist[p.seq]? = some p.d ∧ (getR s' r).bornAt ≤ p.seq := by
+  obtain ⟨hlen, hrxpkt, hrxok, hrouted, hborn⟩ := hc
+  obtain ⟨hpend, hpcreg, hdopen, hdpend, hpowner, hrxsend, hnf, hnonil⟩ := hw
+  lts_cases l h
+  all_goals (intro r p hp)
+  all_goals (simp_all [getC, getR])
+  all_goals (try split)
+  all_goals (first | (simp_all; done) | grind)
+
+set_option maxHeartbeats 1000000 in
+theorem step_born (cfg : Cfg) (s s' : State) (l : Label) (hw : WF cfg s) (hc : CInv cfg s)
+    (h : step cfg s l = some s') : ∀ r, (getR s' r).bornAt ≤ s'.processed := by
+  obtain ⟨hlen, hrxpkt, hrxok, hrouted, hborn⟩ := hc
+  lts_cases l h
+  all_goals (intro r)
+  all_goals (simp_all [getC, getR])
+  all_goals (try split)
+  all_goals (first | (simp_all; done) | grind)
+
+
+theorem init_cinv (cfg : Cfg) : CInv cfg init := by
+  constructor <;> intros <;> simp_all [init, getC, getR, FMap.val, FMap.get, FMap.getL, FMap.empty] <;>
+    first | rfl | (exfalso; rename_i h; exact (List.not_mem_nil h))
+
+theorem step_cinv (cfg : Cfg) (s s' : State) (l : Label) (hw : WF cfg s) (hc : CInv cfg s)
+    (h : step cfg s l = some s') : CInv cfg s' :=
+  ⟨step_hlen cfg s s' l hw hc h, step_rxpkt cfg s s' l hw hc h, step_rxok cfg s s' l hw hc h,
+   step_routed cfg s s' l hw hc h, step_born cfg s s' l hw hc h⟩
+
 end Dhcp.Client.LTS
